@@ -256,6 +256,34 @@ def fd_ctrl(fr):
     return None
 
 
+class HoldApp:
+    """trace factory: numbers the line events the application thread that submits message #msg executes inside the data link
+    layer (j1939_21.py / j1939_22.py) and holds it at the chosen one"""
+
+    def __init__(self, msg, point, hold=0.001):
+        self.name = 'app%d' % msg
+        self.point, self.hold = point, hold
+        self.count = 0
+        self.where = None
+
+    def __call__(self, lt, idx):
+        if lt.kind != 'P' or lt.name != self.name:
+            return None
+        me = self
+
+        def tracer(frame, event, arg):
+            fn = frame.f_code.co_filename
+            if not (fn.endswith('j1939_21.py') or fn.endswith('j1939_22.py')):
+                return tracer if event == 'call' else None
+            if event == 'line':
+                me.count += 1
+                if me.count == me.point:
+                    me.where = "%s:%d" % (frame.f_code.co_name, frame.f_lineno)
+                    rt.CUR.hold(me.hold)
+            return tracer
+        return tracer
+
+
 class Driver:
     """runs a transport scenario: messages submitted at the start (in 'order') or right after
     the n-th bus frame ('after': n), optional capacity probes, faults on the bus.
@@ -339,7 +367,7 @@ class Driver:
         return 'free'
 
     def _submit(self, i):
-        if self.sc.get('rx_threads') and self.net.w.cur is None:
+        if (self.sc.get('rx_threads') or self.sc.get('app_threads')) and self.net.w.cur is None:
             # with controlled receive threads the application is a controlled thread too: its send call may block
             # without stopping the world
             self.net.w.spawn(self._submit_now, (i,), name='app%d' % i)
@@ -436,7 +464,10 @@ class Driver:
         order = sc.get('order') or list(range(len(sc['msgs'])))
         for i in order:
             if sc['msgs'][i].get('after') is None and sc['msgs'][i].get('on') is None:
-                self._submit(i)
+                if sc['msgs'][i].get('at'):
+                    net.w.at(net.w.now + sc['msgs'][i]['at'], lambda i=i: self._submit(i))     # 'at': seconds after the start
+                else:
+                    self._submit(i)
         net.w.run_for(self.horizon())
         if self.pending and not sc.get('late_ok'):
             self.probs.append("HARNESS: %d submissions never triggered" % len(self.pending))
